@@ -41,6 +41,12 @@ func c14ErrName(err error) string {
 		return "emptyStatement"
 	case d == "Missing required field Statement":
 		return "missingStatement"
+	case d == "Missing required field Principal":
+		return "missingPrincipal"
+	case d == "Missing required field Action":
+		return "missingAction"
+	case d == "Missing required field Resource":
+		return "missingResource"
 	case strings.HasPrefix(d, "Invalid effect:"):
 		return "invalidEffect"
 	}
@@ -134,6 +140,9 @@ func c14Gen(r *lib.Rand, buckets, accts []string) c14GenDoc {
 		switch r.Intn(6) {
 		case 0:
 			st.Principal = c14Field{Kind: "s", S: pick(r, "mallory", "", "alice*", "Alice")}
+			if st.Principal.S == "" && r.Bool() {
+				st.Principal.Raw = "{}" // an object without AWS decodes like the empty string
+			}
 		case 1:
 			st.Principal = c14Field{Kind: "a", L: []string{"*", "alice"}}
 		case 2:
@@ -429,6 +438,25 @@ func c14Corpus() []c14GenDoc {
 		mk("corpus", 1, c14RawStmt{Effect: s("Allow"), Principal: l("*", "alice"), Action: s("s3:GetObject"), Resource: s(c14Arn + "bucket/*")}),
 		mk("corpus", 1, ok, c14RawStmt{Effect: s("allow"), Principal: s("*"), Action: s("s3:GetObject"), Resource: s(c14Arn + "bucket/*")}),
 		mk("corpus", 1),
+		// forms of an empty member: each is refused by the decode hooks before Validate sees an empty map
+		mk("corpus:empty-forms", 1, c14RawStmt{Effect: s("Allow"), Principal: c14Field{Kind: "a"}, Action: s("s3:GetObject"), Resource: s(c14Arn + "bucket/*")}),                        // "Principal": []
+		mk("corpus:empty-forms", 1, c14RawStmt{Effect: s("Allow"), Principal: c14Field{Kind: "a", Null: true}, Action: s("s3:GetObject"), Resource: s(c14Arn + "bucket/*")}),            // "Principal": null
+		mk("corpus:empty-forms", 1, c14RawStmt{Effect: s("Allow"), Principal: c14Field{Kind: "s", Raw: "{}"}, Action: s("s3:GetObject"), Resource: s(c14Arn + "bucket/*")}),             // "Principal": {}
+		mk("corpus:empty-forms", 1, c14RawStmt{Effect: s("Allow"), Principal: c14Field{Kind: "a", AWS: true}, Action: s("s3:GetObject"), Resource: s(c14Arn + "bucket/*")}),             // {"AWS": []}
+		mk("corpus:empty-forms", 1, c14RawStmt{Effect: s("Allow"), Principal: c14Field{Kind: "a", AWS: true, Null: true}, Action: s("s3:GetObject"), Resource: s(c14Arn + "bucket/*")}), // {"AWS": null}
+		mk("corpus:empty-forms", 1, c14RawStmt{Effect: s("Allow"), Principal: c14Field{Kind: "s", AWS: true}, Action: s("s3:GetObject"), Resource: s(c14Arn + "bucket/*")}),             // {"AWS": ""}
+		mk("corpus:empty-forms", 1, c14RawStmt{Effect: s("Allow"), Principal: s(""), Action: s("s3:GetObject"), Resource: s(c14Arn + "bucket/*")}),                                      // "Principal": ""
+		mk("corpus:empty-forms", 1, c14RawStmt{Effect: s("Allow"), Principal: s("*"), Action: s(""), Resource: s(c14Arn + "bucket/*")}),                                                 // "Action": ""
+		mk("corpus:empty-forms", 1, c14RawStmt{Effect: s("Allow"), Principal: s("*"), Action: c14Field{Kind: "a"}, Resource: s(c14Arn + "bucket/*")}),                                   // "Action": []
+		mk("corpus:empty-forms", 1, c14RawStmt{Effect: s("Allow"), Principal: s("*"), Action: c14Field{Kind: "a", Null: true}, Resource: s(c14Arn + "bucket/*")}),                       // "Action": null
+		mk("corpus:empty-forms", 1, c14RawStmt{Effect: s("Allow"), Principal: s("*"), Action: s("s3:GetObject"), Resource: c14Field{Kind: "a"}}),                                        // "Resource": []
+		mk("corpus:empty-forms", 1, c14RawStmt{Effect: s("Allow"), Principal: s("*"), Action: s("s3:GetObject"), Resource: s("")}),                                                      // "Resource": ""
+		mk("corpus:empty-forms", 1, c14RawStmt{Effect: s("Allow"), Principal: s("*"), Action: s("s3:GetObject"), Resource: c14Field{Kind: "a", Null: true}}),                            // "Resource": null
+		// one member absent at a time (former class validate:missing-field)
+		mk("corpus:missing", 1, c14RawStmt{Effect: s("Allow"), Principal: c14Field{Kind: "m"}, Action: s("s3:GetObject"), Resource: s(c14Arn + "bucket/*")}),
+		mk("corpus:missing", 1, c14RawStmt{Effect: s("Allow"), Principal: s("*"), Action: c14Field{Kind: "m"}, Resource: s(c14Arn + "bucket/*")}),
+		mk("corpus:missing", 1, c14RawStmt{Effect: s("Allow"), Principal: s("*"), Action: s("s3:GetObject"), Resource: c14Field{Kind: "m"}}),
+		mk("corpus:missing", 1, ok, c14RawStmt{Effect: s("Deny"), Principal: c14Field{Kind: "m"}, Action: c14Field{Kind: "m"}, Resource: c14Field{Kind: "m"}}),
 	}
 }
 
@@ -440,7 +468,7 @@ func c14Validate(a lib.Args, res *lib.Result) error {
 	if a.Thorough() {
 		n = 250000
 	}
-	r := lib.NewRand(a.Seed + 314)
+	r := lib.NewRandStream(a.Seed, 314)
 	iam := c14NewIAM()
 	var cases []*c14VCase
 	var lines []string
@@ -475,7 +503,7 @@ func c14Validate(a lib.Args, res *lib.Result) error {
 					sig, what := "validate:accepts-illformed", "a document that is not a valid policy for the bucket is accepted"
 					switch {
 					case g.hasMissing():
-						sig, what = "validate:missing-field", "a statement without Principal, Action or Resource is accepted (absent members leave nil maps that every check passes)"
+						sig, what = "validate:missing-field", "a statement without Principal, Action or Resource is accepted"
 					case g.hasPrefixFault():
 						sig, what = "validate:resource-prefix-of-other-bucket", "a resource whose bucket component merely starts with the bucket name (other bucket / wildcard) is accepted"
 					}
@@ -483,9 +511,9 @@ func c14Validate(a lib.Args, res *lib.Result) error {
 				case verdict == "accept" && c.refuses > 0:
 					res.Fail(lib.Failure{Kind: "property", Signature: "validate:refuses-wellformed", What: "a well-formed policy for the bucket is refused", Input: in, Impl: impl, Model: model})
 				}
-				// ---- model vs spec (validate_iff_wellformed_partial: the only excluded class is missing-field)
-				if verdict == "accept" && mres != "ok" || verdict == "refuse" && mres == "ok" && !g.hasMissing() {
-					res.Fail(lib.Failure{Kind: "model-vs-spec", Signature: "validate", What: "Model.Policy.validateDocument contradicts Spec.Policy.verdict outside the known class", Input: in, Model: model})
+				// ---- model vs spec (validate_iff_wellformed holds for every document)
+				if verdict == "accept" && mres != "ok" || verdict == "refuse" && mres == "ok" {
+					res.Fail(lib.Failure{Kind: "model-vs-spec", Signature: "validate", What: "Model.Policy.validateDocument contradicts Spec.Policy.verdict (contradicts validate_iff_wellformed)", Input: in, Model: model})
 				}
 			}
 			// ---- correspondence: document level (one outcome: validate_order_independent)
@@ -622,7 +650,7 @@ func c14Units(a lib.Args, res *lib.Result) error {
 	if a.Thorough() {
 		n = 60000
 	}
-	r := lib.NewRand(a.Seed + 414)
+	r := lib.NewRandStream(a.Seed, 414)
 	iam := c14NewIAM()
 	type cs struct{ kind, in, impl string }
 	var cases []cs
